@@ -158,7 +158,7 @@ func waitList(c *vf.Ctx) []waitCfg {
 	for i := 0; i < 4; i++ {
 		l = append(l, waitCfg{Kind: "special:counter-contended", Seed: c.Seed, Idx: i})
 	}
-	n := c.Pick(1500, 25000)
+	n := c.Pick(1500, 12000)
 	for i := 0; i < n; i++ {
 		l = append(l, waitCfg{Kind: "counter", Seed: c.Seed, Idx: i}, waitCfg{Kind: "stack", Seed: c.Seed, Idx: i})
 	}
@@ -451,31 +451,31 @@ func run(c *vf.Ctx) {
 			nSpecial++
 		}
 	}
-	finish("wait child (special scenarios)", runChild(c, vf.ChildOpts{Name: "waits", Args: []string{"0", strconv.Itoa(nSpecial), "plain"}, Timeout: 4 * time.Minute}))
+	finish("wait child (special scenarios)", runChild(c, vf.ChildOpts{Name: "waits", Args: []string{"0", strconv.Itoa(nSpecial), "plain"}, Timeout: 15 * time.Minute}))
 	// ---- scripted arrival orders
 	nChunks := c.Pick(16, 48)
 	for k := 0; k < nChunks; k++ {
 		k := k
 		spawn(func() {
-			finish(fmt.Sprintf("script child %d/%d", k, nChunks), runChild(c, vf.ChildOpts{Name: "scripts", Args: []string{strconv.Itoa(k), strconv.Itoa(nChunks), "plain"}, Timeout: 12 * time.Minute}))
+			finish(fmt.Sprintf("script child %d/%d", k, nChunks), runChild(c, vf.ChildOpts{Name: "scripts", Args: []string{strconv.Itoa(k), strconv.Itoa(nChunks), "plain"}, Timeout: 30 * time.Minute}))
 		})
 		if k%c.Pick(4, 6) == 0 {
 			spawn(func() {
-				finish(fmt.Sprintf("script child %d/%d (race)", k, nChunks), runChild(c, vf.ChildOpts{Name: "scripts", Args: []string{strconv.Itoa(k), strconv.Itoa(nChunks), "race"}, Race: true, Timeout: 14 * time.Minute}))
+				finish(fmt.Sprintf("script child %d/%d (race)", k, nChunks), runChild(c, vf.ChildOpts{Name: "scripts", Args: []string{strconv.Itoa(k), strconv.Itoa(nChunks), "race"}, Race: true, Timeout: 30 * time.Minute}))
 			})
 		}
 	}
 	// ---- Counter / Stack waits, not-held probes
 	wl := len(waitList(c))
-	per := c.Pick(400, 4000)
+	per := c.Pick(400, 1500)
 	for lo := nSpecial; lo < wl; lo += per {
 		lo := lo
 		spawn(func() {
-			finish(fmt.Sprintf("wait child [%d..)", lo), runChild(c, vf.ChildOpts{Name: "waits", Args: []string{strconv.Itoa(lo), strconv.Itoa(lo + per), "plain"}, Timeout: 8 * time.Minute}))
+			finish(fmt.Sprintf("wait child [%d..)", lo), runChild(c, vf.ChildOpts{Name: "waits", Args: []string{strconv.Itoa(lo), strconv.Itoa(lo + per), "plain"}, Timeout: 25 * time.Minute}))
 		})
 	}
 	spawn(func() { // the special and not-held scenarios and a slice of the random ones under -race
-		finish("wait child (race)", runChild(c, vf.ChildOpts{Name: "waits", Args: []string{"0", strconv.Itoa(c.Pick(300, 3000)), "race"}, Race: true, Timeout: 8 * time.Minute}))
+		finish("wait child (race)", runChild(c, vf.ChildOpts{Name: "waits", Args: []string{"0", strconv.Itoa(c.Pick(300, 3000)), "race"}, Race: true, Timeout: 25 * time.Minute}))
 	})
 	// ---- stress
 	stress := func(n, per int, race bool) {
@@ -486,7 +486,7 @@ func run(c *vf.Ctx) {
 				if race {
 					mode = "race"
 				}
-				finish(fmt.Sprintf("stress child [%d..) %s", lo, mode), runChild(c, vf.ChildOpts{Name: "stress", Args: []string{strconv.Itoa(lo), strconv.Itoa(min(lo+per, n)), mode}, Race: race, Timeout: 10 * time.Minute}))
+				finish(fmt.Sprintf("stress child [%d..) %s", lo, mode), runChild(c, vf.ChildOpts{Name: "stress", Args: []string{strconv.Itoa(lo), strconv.Itoa(min(lo+per, n)), mode}, Race: race, Timeout: 25 * time.Minute}))
 			})
 		}
 	}
@@ -498,7 +498,7 @@ func run(c *vf.Ctx) {
 				if race {
 					mode = "race"
 				}
-				finish(fmt.Sprintf("racing child [%d..) %s", lo, mode), runChild(c, vf.ChildOpts{Name: "racing", Args: []string{strconv.Itoa(lo), strconv.Itoa(min(lo+per, n)), mode}, Race: race, Timeout: 10 * time.Minute}))
+				finish(fmt.Sprintf("racing child [%d..) %s", lo, mode), runChild(c, vf.ChildOpts{Name: "racing", Args: []string{strconv.Itoa(lo), strconv.Itoa(min(lo+per, n)), mode}, Race: race, Timeout: 25 * time.Minute}))
 			})
 		}
 	}
